@@ -25,7 +25,7 @@ from .rsreplay import NativeRunner
 
 PROP = 'C17'
 QUOTAS = {
-    'quick': {'cheap': 1, 'medium': 1, 'heavy': 0, 'F1:cheap': 8, 'F2:medium': 5, 'F7:cheap': 2, 'R:cheap': 0, 'R:medium': 0},
+    'quick': {'cheap': 1, 'medium': 1, 'heavy': 0, 'F1:cheap': 6, 'F2:medium': 4, 'F7:cheap': 2, 'R:cheap': 0, 'R:medium': 0},
     'thorough': {'cheap': 60, 'medium': 40, 'heavy': 4, 'F1:cheap': 200, 'F2:medium': 60, 'F7:cheap': 12},
 }
 
